@@ -158,7 +158,7 @@ def make_cells(gi, tier):
             L.close(x, want, "%s: log(X) vs vee(logm(M(X)))" % nm, atol=2e-9 * _cond(case), rtol=2e-9 * _cond(case),
                     scale=_tscale(case), X=X.tolist(), logX=x.tolist())
 
-        cells.append(Cell("%s/principal" % nm, elem_c, check_principal, nontrivial_p, classify_g, quick=120, thorough=3000))
+        cells.append(Cell("%s/principal" % nm, elem_c, check_principal, nontrivial_p, classify_g, quick=120, thorough=1200))
     return cells
 
 
